@@ -41,6 +41,8 @@ func init() {
 			"a waiter of a coalesced dial can leave through its own context and (context provenance) does not receive the dialling subscriber's cancellation; a connection unregisters only itself and an empty connection is closed; " +
 			"the closed flag of an idle connection is flipped atomically with the admission test of subscribe and a refused admission is retried instead of returned. It does not decide message order, idle-period timing or conns→0 over histories.",
 		Mutants: []Mutant{
+			{Name: "subscribe returns the subscriber's context error without the idle check (reverts the F37 fix)", File: "v2/pkg/engine/datasource/graphql_datasource/subscriptionclient/transport/ws_conn.go", Rule: "C18-R11", Key: "wsConnection.subscribe/error-exit-runs-idle-check",
+				Old: "\t\tc.removeSub(id)\n\t\treturn nil, err\n\t}\n\n\tc.subsMu.Lock()\n", New: "\t\treturn nil, err\n\t}\n\n\tc.subsMu.Lock()\n"},
 			{Name: "legacy protocol reports a cancelled dialler as ack timeout (seeded change C18-22)", File: "v2/pkg/engine/datasource/graphql_datasource/subscriptionclient/protocol/graphql_ws.go", Rule: "C18-R10", Key: "graphqlWS.Init/ack-timeout-only-on-deadline",
 				Old: "\t\t\tif errors.Is(err, context.DeadlineExceeded) {\n\t\t\t\treturn ErrAckTimeout\n", New: "\t\t\tif errors.Is(err, context.DeadlineExceeded) || ctx.Err() != nil {\n\t\t\t\treturn ErrAckTimeout\n"},
 			{Name: "subscribe message written under the subscriber's own context (the repaired defect F20)", File: wsConnGo, Rule: "C18-R9", Key: "wsConnection.subscribe/Subscribe-under-connection-context",
@@ -101,6 +103,7 @@ func init() {
 func runC18(r *fw.Run) {
 	defer c18SharedWritesUnderConnectionContext(r)
 	defer c18AckTimeoutOnlyOnDeadline(r)
+	defer c18SubscribeExitsRunIdleCheck(r)
 	p := r.Prog
 	for _, a := range []string{c18T, c18P, c18C} {
 		if p.Pkg(a) == nil {
@@ -1932,4 +1935,66 @@ func c18AckTimeoutOnlyOnDeadline(r *fw.Run) {
 		in.Run(nil)
 	}
 	r.Expect("C18-R10", "returns of ErrAckTimeout in the protocol implementations", n, 2)
+}
+
+// c18SubscribeExitsRunIdleCheck (R11): a connection is closed by the idle logic, and the idle logic runs when a
+// subscription is removed (removeSub → close now, or closeIfIdle after the idle period). A connection that was dialled for a
+// subscriber who then fails to register never has a subscription removed from it — unless the failing exit of
+// wsConnection.subscribe runs the idle check itself. Every exit of subscribe that returns an error has called removeSub
+// / closeIfIdle, or lies on an edge that proves the check is not needed: the connection is already closed
+// (closed.Load() true), or another subscription exists (the comma-ok lookup in subs succeeded).
+func c18SubscribeExitsRunIdleCheck(r *fw.Run) {
+	p := r.Prog
+	r.Rule("C18-R11", "every error exit of wsConnection.subscribe has run the idle check (removeSub / closeIfIdle), or is on the edge where the connection is already closed or holds another subscription: a connection dialled for a subscriber that never registers does not stay open without subscriptions")
+	fi := p.Func(c18T, "wsConnection.subscribe")
+	if fi == nil {
+		r.Error("C18-R11: wsConnection.subscribe not found")
+		return
+	}
+	info := fi.Info()
+	existsVars := map[types.Object]bool{}
+	fw.WalkAll(fi.Decl.Body, func(nd ast.Node) bool {
+		as, ok := nd.(*ast.AssignStmt)
+		if !ok || len(as.Lhs) != 2 || len(as.Rhs) != 1 {
+			return true
+		}
+		if ix, isIx := ast.Unparen(as.Rhs[0]).(*ast.IndexExpr); isIx && fw.IsFieldSel(info, ix.X, c18T, "wsConnection", "subs") {
+			if id, isID := as.Lhs[1].(*ast.Ident); isID {
+				if o := info.Defs[id]; o != nil {
+					existsVars[o] = true
+				}
+			}
+		}
+		return true
+	})
+	n := 0
+	in := fw.NewInterp(fi)
+	in.H = fw.Hooks{
+		Cond: func(e ast.Expr, branch bool, st *fw.State) {
+			if _, ok := fw.AtomicFieldCall(info, e, c18T, "wsConnection", "closed", "Load"); ok && branch {
+				st.Set("no-check-needed")
+			}
+			if id, ok := ast.Unparen(e).(*ast.Ident); ok && branch && existsVars[info.Uses[id]] {
+				st.Set("no-check-needed")
+			}
+		},
+		Node: func(nd ast.Node, st *fw.State) {
+			if c, ok := nd.(*ast.CallExpr); ok && (fw.CallIs(info, c, c18T, "wsConnection.removeSub") || fw.CallIs(info, c, c18T, "wsConnection.closeIfIdle")) {
+				st.Set("idle-checked")
+			}
+		},
+		Exit: func(ret *ast.ReturnStmt, lit *ast.FuncLit, st *fw.State) {
+			if lit != nil || ret == nil || !in.Final() || len(ret.Results) != 2 {
+				return
+			}
+			if id, ok := ast.Unparen(ret.Results[1]).(*ast.Ident); ok && info.Uses[id] == types.Universe.Lookup("nil") {
+				return // success
+			}
+			n++
+			r.Check(st.Must("idle-checked") || st.Must("no-check-needed"), "C18-R11", "wsConnection.subscribe/error-exit-runs-idle-check#"+itoa(n), p.Pos(ret.Pos()), "this error exit of wsConnection.subscribe has run the idle check, or the connection is closed / holds another subscription",
+				"subscribe fails without the idle check: when the subscriber was the reason the connection was dialled (its context ended between the dial and this call), the connection stays in the transport's table with zero subscriptions — nothing ever closes it, it is pinged for ever and counted in Stats().WSConns until the upstream drops it")
+		},
+	}
+	in.Run(nil)
+	r.Expect("C18-R11", "error exits of wsConnection.subscribe", n, 4)
 }
